@@ -291,6 +291,7 @@ func ruleBackground304SelectsEntry(c *Ctx, rule string) {
 	}
 	// functions that compare a stored validator (ETag / Last-Modified of a header) with another non-constant string
 	compares := map[*ssa.Function]bool{}
+	transforms := map[*ssa.Function]bool{}
 	var tree []*ssa.Function
 	for _, bg := range bgs {
 		tree = append(tree, c.reachableFrom(bg)...)
@@ -304,15 +305,68 @@ func ruleBackground304SelectsEntry(c *Ctx, rule string) {
 			if !ok || (bo.Op != token.EQL && bo.Op != token.NEQ) || !isStringType(bo.X.Type()) {
 				return
 			}
-			for _, side := range [][2]ssa.Value{{bo.X, bo.Y}, {bo.Y, bo.X}} {
-				if _, isConst := side[1].(*ssa.Const); isConst {
-					continue
+			// the validators are compared as they are (octet by octet): an operand is the field value itself, not
+			// something computed from it (`strings.TrimPrefix(tag, "W/")` makes "a" and W/"a" the same entry)
+			isValidatorGet := func(cc *ssa.Call) bool {
+				return isHeaderGetOf(cc, "Etag") || isHeaderGetOf(cc, "Last-Modified") || isHeaderGetOf(cc, "If-None-Match") || isHeaderGetOf(cc, "If-Modified-Since")
+			}
+			// raw: the operand is a field value as it was read (or a value handed in), not something computed from one
+			var raw func(v ssa.Value, d int) bool
+			raw = func(v ssa.Value, d int) bool {
+				if d > 4 {
+					return false
 				}
-				if c.An.dependsOnCall(side[0], func(cc *ssa.Call) bool { return isHeaderGetOf(cc, "Etag") || isHeaderGetOf(cc, "Last-Modified") }) {
+				switch y := peel(v).(type) {
+				case *ssa.Call:
+					return isValidatorGet(y)
+				case *ssa.Parameter:
+					return true
+				case *ssa.Phi:
+					for _, e := range y.Edges {
+						if !raw(e, d+1) {
+							return false
+						}
+					}
+					return true
+				case *ssa.UnOp:
+					if y.Op != token.MUL {
+						return false
+					}
+					switch a := y.X.(type) {
+					case *ssa.Alloc:
+						for _, st := range c.P.cellStores(a) {
+							if !raw(st.Val, d+1) {
+								return false
+							}
+						}
+						return true
+					case *ssa.FreeVar:
+						return true
+					}
+				}
+				return false
+			}
+			stored := func(cc *ssa.Call) bool { return isHeaderGetOf(cc, "Etag") || isHeaderGetOf(cc, "Last-Modified") }
+			if _, isConst := bo.X.(*ssa.Const); isConst {
+				return
+			}
+			if _, isConst := bo.Y.(*ssa.Const); isConst {
+				return
+			}
+			if !c.An.dependsOnCall(bo.X, isValidatorGet) && !c.An.dependsOnCall(bo.Y, isValidatorGet) {
+				return
+			}
+			if raw(bo.X, 0) && raw(bo.Y, 0) {
+				if c.An.dependsOnCall(bo.X, stored) || c.An.dependsOnCall(bo.Y, stored) {
 					compares[f] = true
 				}
+			} else {
+				transforms[f] = true // a validator is compared after it went through another call
 			}
 		})
+	}
+	for f := range transforms {
+		delete(compares, f)
 	}
 	n := 0
 	bad := ""
@@ -1570,36 +1624,41 @@ func ruleSIEWindowPerDirective(c *Ctx, rule string) {
 		}
 		return hit
 	}
-	instrsOf(fn, func(in ssa.Instruction) {
-		if bo, ok := isDurCmp(in); ok {
-			n++
-			for _, side := range []ssa.Value{bo.X, bo.Y} {
-				if phi := loopCarried(side); phi != nil {
-					bad = c.P.InstrPos(in)
+	for _, f := range c.reachableFrom(fn) {
+		if f.Pkg != fn.Pkg && (f.Parent() == nil || !lexicallyInside(f, fn)) {
+			continue
+		}
+		instrsOf(f, func(in ssa.Instruction) {
+			if bo, ok := isDurCmp(in); ok {
+				n++
+				for _, side := range []ssa.Value{bo.X, bo.Y} {
+					if phi := loopCarried(side); phi != nil {
+						bad = c.P.InstrPos(in)
+					}
 				}
+				return
 			}
-			return
-		}
-		// the comparison sits in a helper: the durations handed to it are the operands
-		call, ok := in.(*ssa.Call)
-		if !ok {
-			return
-		}
-		for _, g := range c.P.RepoCallees(call) {
-			if g == fn || !compares(g) {
-				continue
+			// the comparison sits in a helper: the durations handed to it are the operands
+			call, ok := in.(*ssa.Call)
+			if !ok {
+				return
 			}
-			for _, a := range call.Call.Args {
-				if !typeIs(a.Type(), "time", "Duration") {
+			for _, g := range c.P.RepoCallees(call) {
+				if g == f || !compares(g) {
 					continue
 				}
-				n++
-				if phi := loopCarried(a); phi != nil {
-					bad = c.P.InstrPos(in)
+				for _, a := range call.Call.Args {
+					if !typeIs(a.Type(), "time", "Duration") {
+						continue
+					}
+					n++
+					if phi := loopCarried(a); phi != nil {
+						bad = c.P.InstrPos(in)
+					}
 				}
 			}
-		}
-	})
+		})
+	}
 	switch {
 	case n == 0:
 		c.Undecided(rule, "sie-window-per-directive", desc, "no duration comparison in "+c.P.ShortName(fn))
@@ -1732,7 +1791,7 @@ func ruleErrorsIsOrder(c *Ctx, rule string) {
 
 // sprintfArgs: the variadic arguments of a fmt.Sprintf-like call, by position.
 func sprintfArgs(cc *ssa.CallCommon) []ssa.Value {
-	if len(cc.Args) < 2 {
+	if len(cc.Args) < 1 {
 		return nil
 	}
 	sl, ok := cc.Args[len(cc.Args)-1].(*ssa.Slice)
